@@ -799,6 +799,68 @@ def rule_r12(facts, col, rule_id="C08.R12"):
                     col.ok(rule_id, key + ":" + w, body.where(bb), "every non-error path through this produce() consumes from self.%s" % w)
 
 
+WSLICE = "circular_buffer::BufferWriter::slice"
+SLICE_VIEWS = {"len", "is_empty", "index_mut", "deref_mut", "as_mut", "as_mut_slice", "borrow_mut", "as_mut_ptr"}
+
+
+def rule_r13(facts, col, rule_id="C08.R13"):
+    """what was written through slice() is committed: where work() stores into the slice of a write window (an indexed
+    assignment through it, or the slice handed as `&mut [T]` to copy_from_slice / fill / iter_mut / a filter kernel / ..),
+    every non-error path from that write to a return passes a produce() on the same window.  A path that writes and
+    returns without committing has spent input (or state) on samples the reader never sees.  (Same obligation as R8,
+    for blocks that write through slice() instead of fill_from_*().)"""
+    for body in facts.impl_bodies(BLOCK_TRAIT, "work"):
+        if body.from_derive:
+            continue
+        slices = {bb: _wb_of(body.operand_expr(t["args"][0])) for bb, t in body.calls_to(WSLICE)}
+        if not slices:
+            continue
+
+        def derives(e):
+            for x in walk(e):
+                if x.k == "call" and x.q == WSLICE and x.bb in slices:
+                    return x.bb
+            return None
+
+        writes = {}
+        for bb, t in body.calls():
+            if bb in slices or t["f"].get("name") in SLICE_VIEWS:
+                continue
+            for a, ty in zip(t["args"], t.get("argtys") or []):
+                if ty.startswith("&mut ["):
+                    sb = derives(body.operand_expr(a))
+                    if sb is not None:
+                        writes.setdefault(bb, (sb, t["f"].get("name")))
+        for bb in sorted(body.reachable(0)):
+            for st in body.blocks[bb]["stmts"]:
+                if st["k"] == "assign" and st["dst"]["p"] and any(p == "*" or (isinstance(p, dict) and "ix" in p) for p in st["dst"]["p"]):
+                    try:
+                        sb = derives(body.place_expr(st["dst"]))
+                    except Exception:
+                        sb = None
+                    if sb is not None:
+                        writes.setdefault(bb, (sb, "store"))
+        prods = {}
+        for bb, t in body.calls_to(effects.PRODUCE):
+            prods.setdefault(_wb_of(body.operand_expr(t["args"][0])), set()).add(bb)
+        okrets = {rb for rb, si, e in assigns_to_return(body) if not _is_err_value(e)}
+        k = 0
+        for bb, (sb, nm) in sorted(writes.items()):
+            key = "%s:write#%d" % (body.q, k)
+            k += 1
+            w = slices[sb]
+            if w is None:
+                col.silent(rule_id, key, body.where(bb), "window origin not visible (optional / nested stream)")
+                continue
+            lost = okrets & reach_avoiding(body, bb, prods.get(w, set()) - {bb})
+            if lost:
+                col.bad(rule_id, key, body.where(bb),
+                        "samples are written into the write window here (%s) but work() can return Ok (%s) without a produce() on that "
+                        "window: what was consumed or taken out of the block's state for them never reaches the reader" % (nm, body.where(sorted(lost)[0])), {})
+            else:
+                col.ok(rule_id, key, body.where(bb), "every non-error path from this write (%s) commits the window" % nm)
+
+
 def from_logging(t):
     sp = t.get("sp") or {}
     return any(x.startswith(("log::", "debug!", "trace!", "info!", "warn!", "error!", "format_args!", "eprintln!", "println!")) or "log" in x
@@ -816,6 +878,7 @@ rule_r7 = effects.view_fallback(rule_r7)
 rule_r8 = effects.view_fallback(rule_r8)
 rule_r9 = effects.view_fallback(rule_r9)
 rule_r10 = effects.view_fallback(rule_r10)
+rule_r13 = effects.view_fallback(rule_r13)
 
 def run(ctx):
     facts = ctx.facts("default")
@@ -838,6 +901,8 @@ def run(ctx):
     ctx.floor("C08.R10", 10, "hand-written work() bodies that consume part of a window")
     rule_r11(facts, ctx)
     ctx.floor("C08.R11", 25, "output commitments (produce/push) in hand-written work() bodies of blocks with an input stream")
+    rule_r13(facts, ctx)
+    ctx.floor("C08.R13", 12, "writes through BufferWriter::slice() in hand-written work() bodies (19 today)")
     rule_r12(facts, ctx)
     ctx.floor("C08.R12", 8, "produce() sites of hand-written work() bodies whose count is computed from a read window's length")
     rule_r9(facts, ctx)
